@@ -29,9 +29,9 @@
       <F>Fragment names ([C20_gen_accepts_structs]) and about decoding ([C20_gen_decodes]) are
       proved about [generate_real] itself, WITH clashing members (ClientGenGoodS / FinalS / DecodeS /
       NamesS / MainS / TopS.v: the loop invariant, the final struct and the decoder over the assigned
-      field names), under the envelope and one names-only premise, [names_no_dunder S d]: no
-      composite type, fragment, type condition is named with a leading "__" ([schema.New] rejects
-      such type names; for fragment names the library has no such rule - an observation).
+      field names), under the envelope alone (a fragment may be named with a leading "__" - the
+      validator accepts it, [fieldName] moves the underscores to the end; the label of a fragment in
+      a leaf path is its lower-cased name without leading and trailing underscores, [frag_label]).
       PARTIAL: the clause about the declared identifiers as a whole ([cl_identifiers]: enum types,
       enum constants, <Op>Data, <F>Fragment, sel<T><n>, json pairwise distinct identifiers; field
       names identifiers) is still proved through the agreement, i.e. under
@@ -145,7 +145,7 @@ Proof. exact real_wf_clauses. Qed.
     is declared, forwarders only where the method exists, the <Op>Data / <F>Fragment names are
     pairwise distinct, no enum type is named by a keyword, every type is printable *)
 Theorem C20_gen_accepts_structs : forall D S d,
-  env S d = true -> schema_loadable S = true -> names_no_dunder S d = true ->
+  env S d = true -> schema_loadable S = true ->
   exists p, generate_real D S (doc_valid S d) d = GOk p /\
             cl_struct_members p /\ cl_references p /\ cl_method_forwarders p /\
             NoDup (map td_name (p_defs p)) /\
@@ -156,7 +156,7 @@ Proof. exact real_s_accepts. Qed.
 (** decoding any response shaped by a named operation yields exactly the selected leaves
     (member-name clashes included; no hypothesis on declaration names) *)
 Theorem C20_gen_decodes : forall D S d,
-  env S d = true -> schema_loadable S = true -> names_no_dunder S d = true ->
+  env S d = true -> schema_loadable S = true ->
   forall p o opname w,
     generate_real D S (doc_valid S d) d = GOk p ->
     In o (d_ops d) -> op_name o = Some opname -> conforms S o w = true ->
@@ -164,9 +164,28 @@ Theorem C20_gen_decodes : forall D S d,
                 (forall pl, In pl (leaves v) <-> In pl (expected S o w)).
 Proof. exact real_s_decodes. Qed.
 
-(** the premise [names_no_dunder] is one conjunct of [decl_safe] *)
-Theorem C20_decl_safe_no_dunder : forall S d, decl_safe S d = true -> names_no_dunder S d = true.
-Proof. exact decl_safe_no_dunder. Qed.
+(** identifiers of the generator of the current tree (clashes included): every struct field name is
+    a usable Go identifier; the emitted enum blocks are enums of the schema under their pre-assigned
+    names, each once; the sel<T><n> helpers have pairwise distinct numbers and composite type names -
+    hence pairwise distinct names when no composite type name ends in a digit.  [lex_fields]: every
+    response key / composite type / fragment / type condition gives a usable field name (every
+    GraphQL name but "_": known finding blank-field-name).
+    PARTIAL with respect to [cl_identifiers]: that the declared identifiers (enum types, constants,
+    <Op>Data, <F>Fragment, sel<T><n>, json) are pairwise distinct AS A WHOLE is proved only through
+    [C20_gen_wf_partial]; the parts are here, [C20_gen_accepts_structs] (<Op>Data / <F>Fragment),
+    [C20_enum_type_names_distinct] and [C20_enum_const_names_distinct]. *)
+Theorem C20_gen_identifiers_partial : forall D S d p,
+  schema_ok S = true -> schema_loadable S = true -> lex_fields S d = true ->
+  generate_real D S (doc_valid S d) d = GOk p ->
+  (forall dfn, In dfn (p_defs p) -> idents_ok (td_type dfn) = true) /\
+  NoDup (map fst (p_enums p)) /\
+  (forall n' cs, In (n', cs) (p_enums p) ->
+     exists n vs, In (DEnum n vs) (s_types S) /\ n' = enum_go_name S d n /\ cs = map (fun v => (const_go_name S d n v, v)) vs) /\
+  NoDup (map snd (DX (p_defs p))) /\
+  (forall ix, In ix (DX (p_defs p)) -> In (fst ix) (composites S)) /\
+  (forallb (fun t => negb (ends_with_digit t)) (composites S) = true ->
+   NoDup (flat_map (fun x => sel_names (td_type x)) (p_defs p))).
+Proof. exact real_s_idents. Qed.
 
 (** operations that fail validation are rejected and nothing is generated (whatever the flags) *)
 Theorem C20_gen_invalid_no_output : forall Q S d,
@@ -267,7 +286,7 @@ Print Assumptions C20_enum_const_names_distinct.
 Print Assumptions C20_gen_wf_clauses_partial.
 Print Assumptions C20_gen_accepts_structs.
 Print Assumptions C20_gen_decodes.
-Print Assumptions C20_decl_safe_no_dunder.
+Print Assumptions C20_gen_identifiers_partial.
 Print Assumptions C20_generators_agree.
 Print Assumptions C20_fixed_member_name_clash.
 Print Assumptions C20_gen_invalid_no_output.
